@@ -756,6 +756,15 @@ class Gen(object):
         secs = self.secs()
         if len(secs) < 2:
             return None
+        if self.fault() and self.chance(0.3):
+            # a merge that has to be refused, issued on a Section whose link is resolved (state in
+            # flight: copies and what the link brought along are in place)
+            linked = [s_ for s_ in secs if s_.is_merged and (len(s_.sections) or s_.parent is not None)]
+            t = self.pick(linked)
+            if t is not None:
+                rel = list(t.sections) + ([t.parent] if kind_of(t.parent) == "sec" else []) + [t]
+                return {"op": "merge", "t": self.ref(t), "x": self.ref(self.pick(rel)),
+                        "strict": self.chance(0.5)}
         t, x = self.pick(secs), self.pick(secs)
         if not self.room(len(self.U.subtree(x))):
             return None
